@@ -590,6 +590,33 @@ fn run_once(
         }
     }
 
+    if property == "C13" && report.violation.is_none() && env.store.is_some() && !stopped {
+        // everything deleted: usage and length return to zero
+        let keys: Vec<Vec<u8>> = model.map.keys().cloned().collect();
+        let mut pinned = false;
+        for k in &keys {
+            match env.st().delete(k) {
+                Ok(()) => {
+                    model.map.remove(k);
+                }
+                Err(feoxdb::FeoxError::OlderTimestamp) => pinned = true,
+                Err(feoxdb::FeoxError::KeyNotFound) => {
+                    model.map.remove(k); // expired in the meantime
+                }
+                Err(e) => report.fail("delete-failed", format!("emptying the store: delete failed with {e:?}")),
+            }
+        }
+        if !pinned && report.violation.is_none() {
+            let (len, mem) = (env.st().len(), env.st().memory_usage());
+            // expired-but-unswept keys are still accounted for: only a store without them must read zero
+            let leftovers = env.st().verif_hash_keys().len();
+            if leftovers == 0 && (len != 0 || mem != 0) {
+                report.fail("memory-accounting", format!("after deleting every key len() = {len} and memory_usage() = {mem}, expected 0 and 0"));
+            } else if leftovers == 0 {
+                report.count("emptied_store_checks", 1);
+            }
+        }
+    }
     if property == "C05" && report.violation.is_none() && env.store.is_some() && !stopped && store_cfg.persistent {
         // a device emptied by deletes offers exactly what a fresh one does: one free run over
         // the whole data area, zero live records, zero bytes in use
